@@ -1,5 +1,16 @@
-"""Discharge verification conditions: z3 (E-matching only, deterministic rlimit), cvc5 on
-unknown via SMT-LIB export.  unsat = discharged; anything else is *not* a verdict."""
+"""Discharge verification conditions with a small portfolio of back ends.
+
+unsat from any back end = discharged (each is a sound refutation procedure for the same formula);
+anything else is *not* a verdict.  The portfolio exists because E-matching runs are sensitive to assertion
+order, preprocessing and seeds: the same VC was seen to take 0.3 s or > 120 s in z3 depending on how it was fed.
+Every stage is bounded by a deterministic resource limit (not wall time), so verdicts do not depend on load.
+
+  stage 1  z3 SimpleSolver (E-matching only, no MBQI), assertions added directly, small rlimit
+           -> also yields the candidate counter-model used for replay
+  stage 2  z3 command line on the SMT-LIB export (default preprocessing), rlimit
+  stage 3  cvc5 on the same text, --rlimit
+  stage 4  z3 command line with other seeds
+"""
 from __future__ import annotations
 
 import os
@@ -12,18 +23,63 @@ import z3
 from .prelude import prelude
 
 RLIMIT = int(os.environ.get("PYVC_RLIMIT", "40000000"))
+RLIMIT_QUICK = int(os.environ.get("PYVC_RLIMIT_QUICK", "400000"))
+QUICK_TIMEOUT_MS = int(os.environ.get("PYVC_QUICK_TIMEOUT_MS", "8000"))   # stage 1 only; later stages decide
 CVC5 = "/usr/bin/cvc5"
+CVC5_TLIMIT_S = int(os.environ.get("PYVC_CVC5_TLIMIT", "15"))
 
 
-def make_solver(rlimit=RLIMIT, mbqi=False):
+def make_solver(rlimit=RLIMIT, mbqi=False, seed=0, timeout_ms=120000):
     s = z3.SimpleSolver()
     s.set("smt.mbqi", mbqi)
     s.set("smt.auto_config", False)
     s.set("smt.ematching", True)
     s.set("rlimit", rlimit)
-    s.set("timeout", 120000)
+    s.set("timeout", timeout_ms)
     s.set("smt.qi.eager_threshold", 100.0)
+    if seed:
+        s.set("smt.random_seed", seed)
+    for kv in os.environ.get("PYVC_Z3_OPTS", "").split(","):
+        if "=" in kv:
+            k, v = kv.split("=")
+            s.set(k, int(v) if v.lstrip("-").isdigit() else (v == "true" if v in ("true", "false") else v))
     return s
+
+
+Z3CLI = os.environ.get("PYVC_Z3CLI") or "z3-new"
+HARD_CAP_S = int(os.environ.get("PYVC_HARD_CAP_S", "900"))   # safety net only; verdicts are bounded by resource limits
+STAGE0_TLIMIT_MS = int(os.environ.get("PYVC_STAGE0_TLIMIT_MS", "4000"))
+STAGE1_TLIMIT_S = int(os.environ.get("PYVC_STAGE1_TLIMIT_S", "30"))
+CLI_TLIMIT_S = int(os.environ.get("PYVC_CLI_TLIMIT_S", "90"))      # hard wall limit per subprocess stage
+RLIMIT_CLI = int(os.environ.get("PYVC_RLIMIT_CLI", "60000000"))
+RLIMIT_CVC5 = int(os.environ.get("PYVC_RLIMIT_CVC5", "600000"))
+
+
+def run_z3_cli(smt2: str, rlimit: int = RLIMIT_CLI, seed: int = 0):
+    """z3 as a subprocess on the exported text: default preprocessing + SMT core, E-matching only, bounded by a
+    deterministic resource limit (so the verdict does not depend on machine load).  Returns (status, rlimit used)."""
+    import re
+    import shutil
+    exe = shutil.which(Z3CLI) or shutil.which("z3")
+    if exe is None:
+        return "unknown", 0
+    with tempfile.NamedTemporaryFile("w", suffix=".smt2", delete=False, dir=os.environ.get("PYVC_TMP")) as fh:
+        fh.write(smt2 if "(check-sat)" in smt2 else smt2 + "\n(check-sat)\n")
+        path = fh.name
+    try:
+        out = subprocess.run([exe, "-st", f"-T:{CLI_TLIMIT_S}", f"rlimit={rlimit}", "smt.mbqi=false", "smt.auto_config=false",
+                              "smt.qi.eager_threshold=100", f"smt.random_seed={seed}", path],
+                             capture_output=True, text=True, timeout=CLI_TLIMIT_S + 30)
+        first = out.stdout.strip().splitlines()[0] if out.stdout.strip() else "unknown"
+        m = re.search(r":rlimit-count\s+(\d+)", out.stdout)
+        return (first if first in ("sat", "unsat") else "unknown"), int(m.group(1)) if m else 0
+    except Exception:
+        return "unknown", 0
+    finally:
+        try:
+            os.unlink(path)
+        except OSError:
+            pass
 
 
 class Result:
@@ -33,10 +89,8 @@ class Result:
         self.status, self.backend, self.time, self.model, self.reason, self.smt2 = status, backend, t, model, reason, smt2
 
 
-def check(hyps, goal, extra=(), want_model=True, try_cvc5=True, rlimit=RLIMIT) -> Result:
+def _load(s, hyps, goal, extra):
     P = prelude()
-    t0 = time.time()
-    s = make_solver(rlimit)
     for a in P.axioms:
         s.add(a)
     for f in extra:
@@ -44,27 +98,192 @@ def check(hyps, goal, extra=(), want_model=True, try_cvc5=True, rlimit=RLIMIT) -
     for h in hyps:
         s.add(h)
     s.add(z3.Not(goal))
+
+
+def _stage1(hyps, goal, extra, rlimit, want_model, post):
+    """in-process z3; returns a picklable dict.  `post(model)` turns the model into a JSON-able counterexample."""
+    s = make_solver(rlimit, timeout_ms=STAGE1_TLIMIT_S * 1000)
+    _load(s, hyps, goal, extra)
     r = s.check()
-    dt = time.time() - t0
+    out = {"r": str(r), "reason": "", "cex": None, "cex_error": None, "smt2": None}
     if r == z3.unsat:
-        return Result("unsat", "z3", dt)
+        return out
+    out["reason"] = s.reason_unknown() if r == z3.unknown else "sat"
+    out["smt2"] = s.to_smt2()
+    if want_model and post is not None:
+        try:
+            out["cex"] = post(s.model())
+        except z3.Z3Exception:
+            pass
+        except Exception as err:   # extraction problems are reported, never fatal
+            out["cex_error"] = repr(err)
+    return out
+
+
+def in_child(fn, hard_s: float):
+    """Run fn() in a forked child with a hard wall-clock limit; None if it had to be killed.
+    (z3's own timeout is not honoured in every phase, and interrupting from a thread crashed the interpreter.)"""
+    import json
+    import select
+    import signal
+    r, w = os.pipe()
+    pid = os.fork()
+    if pid == 0:
+        code = 0
+        try:
+            os.close(r)
+            data = json.dumps(fn()).encode()
+            off = 0
+            while off < len(data):
+                off += os.write(w, data[off:off + 65536])
+        except BaseException:
+            code = 1
+        finally:
+            os._exit(code)
+    os.close(w)
+    chunks = []
+    deadline = time.time() + hard_s
+    killed = False
+    while True:
+        left = deadline - time.time()
+        if left <= 0:
+            killed = True
+            break
+        ready, _, _ = select.select([r], [], [], left)
+        if not ready:
+            killed = True
+            break
+        buf = os.read(r, 1 << 20)
+        if not buf:
+            break
+        chunks.append(buf)
+    if killed:
+        try:
+            os.kill(pid, signal.SIGKILL)
+        except OSError:
+            pass
+    os.close(r)
+    try:
+        os.waitpid(pid, 0)
+    except OSError:
+        pass
+    if killed or not chunks:
+        return None
+    try:
+        return json.loads(b"".join(chunks).decode())
+    except Exception:
+        return None
+
+
+def check(hyps, goal, extra=(), want_model=True, try_cvc5=True, rlimit=RLIMIT, post=None) -> Result:
+    """stage 0  in-process z3 with a small budget (discharges the bulk of the VCs in milliseconds)
+       stage 1  race of external solvers on the exported text, hard wall limit
+       stage 2  only if still open and a counterexample is wanted: in-process z3 in a forked child (hard limit) to
+                obtain the candidate counter-model; `post(model)` runs in the child and its JSON-able result is
+                returned in Result.model (a dict)."""
+    t0 = time.time()
+    s = make_solver(min(RLIMIT_QUICK, rlimit), timeout_ms=STAGE0_TLIMIT_MS)
+    _load(s, hyps, goal, extra)
+    r = s.check()
+    if r == z3.unsat:
+        return Result("unsat", "z3", time.time() - t0)
     reason = s.reason_unknown() if r == z3.unknown else "sat"
+    first_status = "sat" if r == z3.sat else "unknown"
+    smt2 = s.to_smt2()
+    if r != z3.sat:
+        winner = race(smt2, try_cvc5)
+        if winner:
+            return Result("unsat", winner, time.time() - t0)
     model = None
     if want_model:
-        try:
-            model = s.model()
-        except z3.Z3Exception:
-            model = None
-    if r == z3.unknown and try_cvc5 and ("rlimit" in reason or "timeout" in reason or "canceled" in reason
-                                         or "incomplete" in reason):
-        smt2 = s.to_smt2()
-        c = run_cvc5(smt2)
-        if c == "unsat":
-            return Result("unsat", "cvc5", time.time() - t0)
-    return Result("sat" if r == z3.sat else "unknown", "z3", dt, model, reason)
+        if post is None:
+            try:
+                model = s.model()
+            except z3.Z3Exception:
+                model = None
+        else:
+            cexd = None
+            if r != z3.unknown or "incomplete" in reason:
+                # the quick run ended with a candidate model: extract in place (cheap)
+                try:
+                    cexd = {"cex": post(s.model()), "cex_error": None}
+                except z3.Z3Exception:
+                    cexd = None
+                except Exception as err:
+                    cexd = {"cex": None, "cex_error": repr(err)}
+            if cexd is None:
+                o = in_child(lambda: _stage1(hyps, goal, extra, rlimit, True, post), STAGE1_TLIMIT_S + 5)
+                if o is not None:
+                    if o["r"] == "unsat":
+                        return Result("unsat", "z3", time.time() - t0)
+                    cexd = {"cex": o.get("cex"), "cex_error": o.get("cex_error")}
+                    reason = o.get("reason") or reason
+            model = cexd
+    return Result(first_status, "z3", time.time() - t0, model, reason)
 
 
-def run_cvc5(smt2: str, timeout_s=20) -> str:
+def race(smt2: str, try_cvc5=True, limit_s=None):
+    import shutil
+    limit_s = limit_s or CLI_TLIMIT_S
+    exe = shutil.which(Z3CLI) or shutil.which("z3")
+    paths = []
+
+    def tmp(text):
+        with tempfile.NamedTemporaryFile("w", suffix=".smt2", delete=False, dir=os.environ.get("PYVC_TMP")) as fh:
+            fh.write(text)
+            paths.append(fh.name)
+            return fh.name
+    ztext = smt2 if "(check-sat)" in smt2 else smt2 + "\n(check-sat)\n"
+    procs = {}
+    try:
+        if exe:
+            zp = tmp(ztext)
+            for seed in (0, 1):
+                procs[f"z3-cli(seed={seed})"] = subprocess.Popen(
+                    [exe, f"-T:{limit_s}", f"rlimit={RLIMIT_CLI}", "smt.mbqi=false", "smt.auto_config=false",
+                     "smt.qi.eager_threshold=100", f"smt.random_seed={seed}", zp],
+                    stdout=subprocess.PIPE, stderr=subprocess.DEVNULL, text=True)
+        if try_cvc5 and os.path.exists(CVC5):
+            cp = tmp("(set-logic ALL)\n" + smt2)
+            procs["cvc5"] = subprocess.Popen([CVC5, "--tlimit=%d" % (limit_s * 1000), cp],
+                                             stdout=subprocess.PIPE, stderr=subprocess.DEVNULL, text=True)
+        deadline = time.time() + limit_s + 10
+        pending = dict(procs)
+        while pending and time.time() < deadline:
+            for name, pr in list(pending.items()):
+                if pr.poll() is not None:
+                    out = pr.stdout.read() if pr.stdout else ""
+                    del pending[name]
+                    first = out.strip().splitlines()[0] if out.strip() else ""
+                    if first == "unsat":
+                        return name
+            time.sleep(0.05)
+        return None
+    finally:
+        for pr in procs.values():
+            if pr.poll() is None:
+                try:
+                    pr.kill()
+                except OSError:
+                    pass
+            try:
+                pr.wait(timeout=5)
+            except Exception:
+                pass
+        for pth in paths:
+            try:
+                os.unlink(pth)
+            except OSError:
+                pass
+
+
+def _export(hyps, goal, extra) -> str:
+    s = make_solver()
+    _load(s, hyps, goal, extra)
+    return s.to_smt2()
+
+
+def run_cvc5(smt2: str, rlimit=RLIMIT_CVC5) -> str:
     if not os.path.exists(CVC5):
         return "unknown"
     text = "(set-logic ALL)\n" + smt2
@@ -72,8 +291,8 @@ def run_cvc5(smt2: str, timeout_s=20) -> str:
         fh.write(text)
         path = fh.name
     try:
-        out = subprocess.run([CVC5, "--tlimit=%d" % (timeout_s * 1000), path], capture_output=True, text=True,
-                             timeout=timeout_s + 5)
+        out = subprocess.run([CVC5, "--rlimit=%d" % rlimit, "--tlimit=%d" % (CLI_TLIMIT_S * 500), path],
+                             capture_output=True, text=True, timeout=CLI_TLIMIT_S // 2 + 10)
         first = out.stdout.strip().splitlines()[0] if out.stdout.strip() else "unknown"
         return first if first in ("sat", "unsat") else "unknown"
     except Exception:
